@@ -225,6 +225,28 @@ def record(specs):
 
 # ----------------------------------------------------------------------------- input generators
 
+class RGB(tuple):
+    """a tuple subclass with named fields (what collections.namedtuple / typing.NamedTuple give): still a tuple"""
+    __slots__ = ()
+
+    def __new__(cls, r, g, b):
+        return tuple.__new__(cls, (r, g, b))
+
+    def __getnewargs__(self):          # (pickling: the constructor takes three arguments, like a namedtuple's)
+        return tuple(self)
+
+    r = property(lambda self: self[0])
+    g = property(lambda self: self[1])
+    b = property(lambda self: self[2])
+
+    def __repr__(self):
+        return "RGB(r=%r, g=%r, b=%r)" % tuple(self)
+
+
+class ColourList(list):
+    """a list subclass: still a list"""
+
+
 def hexs(c):
     return "#%02x%02x%02x" % tuple(c)
 
@@ -248,6 +270,10 @@ def spell(c, kind, rnd):
         return (r, g, b)
     if kind == "list":
         return [r, g, b]
+    if kind == "tuplesub":
+        return RGB(r, g, b)
+    if kind == "listsub":
+        return ColourList([r, g, b])
     if kind == "rgbafn":
         return f"rgba({r}, {g}, {b}, {rnd.choice(['0.5', '0.8', '0.93', '1', '0.25', '50', '80', '100'])})"
     if kind == "rgbatuple":
@@ -271,7 +297,7 @@ def _rgb_to_hsl_int(c):
 
 
 SPELLS = ["hex6", "hex3", "hexnohash", "hexupper", "rgbfn", "rgbpct", "hslfn", "named", "tuple", "list", "rgbafn",
-          "hslafn", "rgbatuple"]
+          "hslafn", "rgbatuple", "tuplesub", "listsub"]
 
 
 def rand_colour(rnd):
